@@ -543,6 +543,13 @@ def NEST(tier='quick'):
         for nv in ({'a': 1}, {'a': 2}, {'a': 1, 'l': []}, {'a': 1, 'l': [5]}, {'a': 1, 'c': ('x', 0)}):
             yield T, {'h': 7, 'n': nv}
 
+    # DEFAULT component of SET OF type: the same set written in another order is still the default
+    for kind in ('SEQ', 'SET'):
+        T = (kind, (('h', I(30, INT), 'R', None), ('s', I(29, ('SETOF', INT)), 'D', M.freeze([1, 2]))))
+        assert M.legal(T)
+        for sv in ([1, 2], [2, 1], [1], [2, 1, 1], []):
+            yield T, {'h': 7, 's': sv}
+
     # DEFAULT component of CHOICE type whose alternatives can hold equal contents
     chdef = ('CHOICE', (('a', I(0, INT)), ('b', I(1, INT)), ('s', I(2, OCTS))))
     for kind in ('SEQ', 'SET'):
